@@ -153,7 +153,7 @@ theorem act0_eq2 : ((0 : Nat) == 2) = false := rfl
 
 macro "b_simp" : tactic =>
   `(tactic| simp only [*, ↓reduceIte, Bool.false_eq_true, act1_eq1, act1_eq2, act2_eq1, act2_eq2, act0_eq1, act0_eq2,
-      decide_eq_true_eq, strip_lastLoc, strip_refLoc, strip_tagUseSite, strip_eofErr, strip_replay])
+      decide_eq_true_eq, strip_lastLoc, strip_refLoc, strip_atAlias, strip_tagUseSite, strip_eofErr, strip_replay])
 
 macro "b_loop" : tactic =>
   `(tactic| repeat' (first | b_leaf | b_step | b_simp | (split <;> try b_fwd) | b_tail))
